@@ -5,6 +5,7 @@ request served atomically by the manager process; everything else a reader does 
 in-process dict that (a) yields to the scheduler before each operation and (b) pickles on store / unpickles on load, as
 the proxy does, so no aliasing through the cache is invented by the harness.
 """
+import os
 import pickle
 import threading
 
@@ -68,6 +69,34 @@ class SchedDict:
         return {k: pickle.loads(v) for k, v in self._d.items()}
 
 
+class _Workers:
+    """Persistent worker threads (one set per process): creating fresh threads for every schedule is the dominant cost
+    (clone + stack mmap), and it scales badly when many explorer processes do it at once."""
+    pid = None
+    threads = []
+    queues = []
+
+    @classmethod
+    def get(cls, n):
+        import queue
+        if cls.pid != os.getpid():
+            cls.pid, cls.threads, cls.queues = os.getpid(), [], []
+        while len(cls.threads) < n:
+            q = queue.SimpleQueue()
+            i = len(cls.threads)
+
+            def loop(q=q):
+                while True:
+                    job = q.get()
+                    job()
+
+            th = threading.Thread(target=loop, name=f"T{i}", daemon=True)
+            th.start()
+            cls.threads.append(th)
+            cls.queues.append(q)
+        return cls.queues[:n]
+
+
 class Scheduler:
     """Runs thread bodies under a schedule chosen by `chooser`; preemptions (switching away from a thread that could
     continue) are bounded by `bound` (None = unbounded)."""
@@ -113,11 +142,11 @@ class Scheduler:
     def run(self, bodies):
         """bodies: list of callables. Returns when all are done."""
         tids = [f"T{i}" for i in range(len(bodies))]
-        threads = [threading.Thread(target=self._wrap(t, b), name=t, daemon=True) for t, b in zip(tids, bodies)]
+        queues = _Workers.get(len(bodies))
         for t in tids:
             self.state[t] = "running"
-        for th in threads:
-            th.start()
+        for q, t, b in zip(queues, tids, bodies):
+            q.put(self._wrap(t, b))
         last = None
         while True:
             with self.cv:
@@ -144,6 +173,4 @@ class Scheduler:
                 self.turn = pick
                 self.state[pick] = "running"
                 self.cv.notify_all()
-        for th in threads:
-            th.join(timeout=5)
         return self.trace
